@@ -105,10 +105,10 @@ class Out:
 
 class ExcV:
     """A raised exception: class name (+ optional python-level base list)."""
-    __slots__ = ("cls", "line")
+    __slots__ = ("cls", "line", "origin")
 
-    def __init__(self, cls, line=0):
-        self.cls, self.line = cls, line
+    def __init__(self, cls, line=0, origin=None):
+        self.cls, self.line, self.origin = cls, line, origin        # origin: the callee whose contract produced the exception (None: raised in the body)
 
     def __repr__(self):
         return f"Exc({self.cls}@{self.line})"
@@ -926,11 +926,18 @@ class Exec:
 
     @staticmethod
     def goal_of(g):
+        if isinstance(g, dsl.Given):
+            return z3.And(*g.axioms, g.goal) if g.axioms else g.goal
         return g.goal if isinstance(g, dsl.With) else g
 
     def oblige_clause(self, st, name, g, node, props=None):
         """Emit the obligation(s) for one clause value; a dsl.With carries helper facts that are proved
         first (as their own obligations) and then made available to the main goal."""
+        if isinstance(g, dsl.Given):
+            s2 = st.fork()
+            for a in g.axioms:
+                s2.assume(a)
+            return self.oblige(s2, name, g.goal, node, props=props)
         if isinstance(g, dsl.With):
             s2 = st
             for k, f in enumerate(g.facts):
@@ -1003,7 +1010,7 @@ class Exec:
                 st.assign(ln, self.coerce(lt_, self.to_storable(cur), s))
         # 1. invariant holds on entry
         for tag, g in self.eval_clauses(spec.invariant, self.view(st)):
-            self.oblige(st, f"{label}/inv-entry/{tag}", g, s)
+            self.oblige_clause(st, f"{label}/inv-entry/{tag}", g, s)
         # 2. arbitrary iteration
         mod_names = self.assigned_names(s.body) + ([kname] if kind == "for" else [])
         if kind == "for" and target is not None:
@@ -1084,7 +1091,7 @@ class Exec:
                             for tag, g in self.eval_clauses(spec.step, self.view(head_st), self.view(o2.st)):
                                 self.oblige_clause(o2.st, f"{label}/step/{tag}", g, s)
                         for tag, g in self.eval_clauses(spec.invariant, self.view(o2.st)):
-                            self.oblige(o2.st, f"{label}/inv-preserved/{tag}", g, s)
+                            self.oblige_clause(o2.st, f"{label}/inv-preserved/{tag}", g, s)
                         if spec.decreases is not None:
                             dec1 = spec.decreases(self.view(o2.st))
                             self.oblige(o2.st, f"{label}/decreases", z3.And(dec0 >= 0, dec1 < dec0), s)
@@ -1714,22 +1721,29 @@ class Exec:
         # 1. preconditions
         for cl in c.requires:
             for tag, g in self.eval_clauses(cl.fn, pre):
-                self.oblige(st, f"call@L{getattr(node, 'lineno', 0)}/{name}/requires/{cl.tag}{'' if tag.startswith('#') else '.' + tag}", g, node)
-                st.assume(g)
+                self.oblige_clause(st, f"call@L{getattr(node, 'lineno', 0)}/{name}/requires/{cl.tag}{'' if tag.startswith('#') else '.' + tag}", g, node)
+                st.assume(self.goal_of(g))
         res = []
         # 2. exceptional outcomes
         not_raised = []
+        never = [excs for callee, excs in getattr(self, "cur_never_raises", {}).items() if callee in name]
         for rs in c.raises:
             cond = rs.when(pre)
             if isinstance(cond, bool):
                 cond = z3.BoolVal(cond)
+            if any(rs.exc in excs for excs in never):
+                # the function under verification promises that this callee never raises this exception here: a named obligation at the call
+                # site (always generated, so a change that makes the exception reachable fails an obligation that discharged before)
+                self.oblige(st, f"call@L{getattr(node, 'lineno', 0)}/{name}/never-raises-{rs.exc}", z3.Not(cond), node)
+                st.assume(z3.Not(cond))
+                continue
             if self.feasible(st, cond):
                 s2 = st.fork()
                 s2.assume(cond)
                 s2.trace.append(f"{name} raises {rs.exc}")
                 if not rs.unchanged:
                     self.havoc_modifies(c, s2, targs)
-                res.append(Out("raise", ExcV(rs.exc, getattr(node, "lineno", 0)), s2))
+                res.append(Out("raise", ExcV(rs.exc, getattr(node, "lineno", 0), origin=name), s2))
             if rs.iff:
                 not_raised.append(z3.Not(cond))
         for nr in not_raised:
@@ -1816,7 +1830,7 @@ class Exec:
                     na = z3.Const(ty.fresh_name(f"H:{k}"), z3.ArraySort(ty.RefSort, srt))
                     r = z3.Const(ty.fresh_name("fr"), ty.RefSort)
                     st.assume(ty.FA([r], z3.Implies(z3.Select(pre_alloc, r), z3.Select(na, r) == z3.Select(a, r)),
-                                        patterns=[z3.Select(na, r)]))
+                                        patterns=[z3.Select(na, r), z3.Select(a, r)]))
                     st.heap[k] = na
                 else:
                     for r in refs:
@@ -1877,6 +1891,7 @@ class Exec:
             raise Unsupported(f"no contract for {qualname}" + (f" @ {recv}" if recv else ""))
         self.cur_fn = qualname.split("acnportal.")[-1] + (f"@{recv}" if recv else "")
         self.cur_views = c.extra.get("callee_views", {})
+        self.cur_never_raises = c.extra.get("callee_never_raises", {})
         self.cur_canonical_filters = bool(c.extra.get("canonical_filters"))
         self.cur_props = tuple(props)
         n0 = len(self.obls)
@@ -1886,7 +1901,7 @@ class Exec:
         pre = self.view(st, dict(bound, **closure))
         for cl in c.requires:
             for tag, g in self.eval_clauses(cl.fn, pre):
-                st.assume(g)
+                st.assume(self.goal_of(g))
         ge = c.extra.get("ghost_entry")
         if ge:
             st.ghost.update(ge(self, st, pre))
@@ -1935,6 +1950,17 @@ class Exec:
                 self.frame_obligations(c, entry, o.st, bound, pid, fi.node)
             elif o.kind == "raise":
                 specs = [rs for rs in c.raises if self.exc_is(o.val.cls, rs.exc)]
+                # a clause that names the callee the exception comes from ("origin") takes precedence over the general ones, an exact class
+                # over a base class: "no StationOccupiedError out of _process_event" next to "the scheduler may raise anything"
+                org = getattr(o.val, "origin", None) or ""
+                by_origin = [rs for rs in specs if getattr(rs, "origin", None) and rs.origin in org]
+                if by_origin:
+                    specs = by_origin
+                else:
+                    specs = [rs for rs in specs if not getattr(rs, "origin", None)]
+                    exact = [rs for rs in specs if rs.exc == o.val.cls]
+                    if exact:
+                        specs = exact
                 if not specs:
                     self.oblige(o.st, f"raises/unexpected-{o.val.cls}@L{o.val.line}/{pid}", z3.BoolVal(False), fi.node)
                     continue
